@@ -442,6 +442,7 @@ where F: Frame + 'static, F::Sample: Flt, <F::Signed as Frame>::Sample: Flt, <F:
         }
     }
     for _ in 0..extra { req.push_str(" x"); }
+    mark(0, &req);
     let res = with_det::<F>(det, a, r, &ops, if sig { Some(extra) } else { None });
     let nexts = ops.iter().filter(|o| matches!(o, EOp::Next(_))).count();
     let changes = ops.len() - nexts;
